@@ -205,6 +205,20 @@ def default_command(ctx):
                                "stderr": p.stderr.decode("utf-8", "replace")[:300], "expected_exit": 123})
 
 
+def panic_inventory(ctx):
+    """the statuses of xargs are 0, 1 and 123..127: every place in src/xargs that can end in a panic (status 101) instead is listed with
+    its reason in audits/panic_sites.allow (regenerated from /repo on every run; C11 does the same for find)"""
+    from tools import panic_sites
+    sites = panic_sites.scan(subs=("src/xargs",))
+    new = panic_sites.unlisted(subs=("src/xargs",))
+    ctx.count(("panic-inventory",), True, ["panic-inventory", "sites=%d" % len(sites)])
+    for f, fn, text, ln in new[:5]:
+        ctx.unshown("%s:%d (fn %s): %s - a place that can panic and is not in audits/panic_sites.allow" % (f, ln, fn, text[:100]),
+                    {"property": "C19", "kind": "panic-inventory", "file": f, "line": ln, "function": fn, "text": text,
+                     "explain": "the inventory of panic sites is regenerated from /repo on every run; this one is new and no input reaching it was searched for",
+                     "new_sites": len(new)})
+
+
 def run(ctx):
     rng = ctx.rng
     cases = [gen_case(rng) for _ in range(40000 if ctx.thorough else 3000)]
@@ -215,6 +229,7 @@ def run(ctx):
     e2e(ctx)
     surroundings(ctx)
     default_command(ctx)
+    panic_inventory(ctx)
 
 
 def replay(ctx, rep):
